@@ -531,6 +531,7 @@ def run(ctx):
                 'levels and siblings, all leaves drawn from one shuffled pool of distinct tags over the four classes (so sibling '
                 'tags interleave with those of the alternatives), every leaf alternative chosen in turn, same comparisons (DER dynamic and '
                 'CER static order).  '
+                'Plus the systematic grids: presence patterns of three-member records, empty / non-empty constructed members around OPTIONAL ones, every kind under every tagging shape.  '
                 'non-trivial = constructed or tagged type; distinct by (type, value)')
     search_only = getattr(ctx, 'search_only', False)
     cases = codec.gen_cases(ctx, ctx.n(120, 2500), depth=3, reals='all')
@@ -544,6 +545,11 @@ def run(ctx):
     # SET ordering: untagged CHOICE members nested 2-3 levels, every alternative in turn, interleaving sibling tags
     for T, v, how in set_choice_cases(ctx, g, ctx.n(30, 500)):
         work.append((T, U.coq_ty(T), v, how))
+    # systematic: presence patterns (also around an untagged CHOICE), empty / non-empty constructed members around
+    # OPTIONAL ones, every kind under every tagging shape
+    for c in (codec.presence_grid_cases(ctx, every=6 if ctx.tier == 'quick' else 1) + codec.empty_member_grid_cases(ctx, every=2 if ctx.tier == 'quick' else 1)
+              + codec.tag_grid_cases(ctx, every=3 if ctx.tier == 'quick' else 1)):
+        work.append((c.T, c.cty, c.v, 'grid'))
     for T, cty, v, how in work:
         has_any = 'any' in gen.features(T)
         has_real = 'real' in gen.features(T)
